@@ -211,7 +211,7 @@ pub fn instantiate(p: &InitParams) -> (Option<VH>, String) {
     let oracle = Arc::new(Mutex::new(Oracle::default()));
     let mut deps = new_deps(oracle.clone());
     let mut env = mock_env();
-    env.block.time = Timestamp::from_seconds(p.time);
+    env.block.time = Timestamp::from_nanos(p.time * 1_000_000_000 + crate::subsec(p.height));
     env.block.height = p.height;
     let msg = InstantiateMsg {
         decimals: p.dp,
@@ -234,7 +234,7 @@ pub fn instantiate(p: &InitParams) -> (Option<VH>, String) {
     let ok = matches!(r, Ok(Ok(_)));
     let dec = if p.dp <= 38 { 10u128.pow(p.dp as u32) } else { 0 };
     let head = format!(
-        "dp={} toll={} spread={} fluct={} period={} qr={} br={} time={} height={} ok={}",
+        "dp={} ptoll={} pspread={} pfluct={} period={} qr={} br={} time={} height={} ok={}",
         p.dp, p.toll, p.spread, p.fluct, p.period, p.qr, p.br, p.time, p.height, ok as u8
     );
     if ok {
@@ -338,15 +338,15 @@ pub fn run(seed: u64, count: u64, out: &mut dyn Write, stats: &mut Stats) {
                 0..=3 => {}
                 4..=6 => {
                     vh.env.block.height += 1;
-                    vh.env.block.time = vh.env.block.time.plus_seconds(r.range(1, 30));
+                    vh.env.block.time = Timestamp::from_nanos((vh.env.block.time.seconds() + r.range(1, 30)) * 1_000_000_000 + crate::subsec(vh.env.block.height));
                 }
                 7 => {
                     vh.env.block.height += r.range(1, 20);
-                    vh.env.block.time = vh.env.block.time.plus_seconds(r.range(30, 1200));
+                    vh.env.block.time = Timestamp::from_nanos((vh.env.block.time.seconds() + r.range(30, 1200)) * 1_000_000_000 + crate::subsec(vh.env.block.height));
                 }
                 8 => {
                     vh.env.block.height += r.range(1, 3);
-                    vh.env.block.time = vh.env.block.time.plus_seconds(r.range(900, 90000));
+                    vh.env.block.time = Timestamp::from_nanos((vh.env.block.time.seconds() + r.range(900, 90000)) * 1_000_000_000 + crate::subsec(vh.env.block.height));
                 }
                 _ => {
                     // time stands still across a block boundary
